@@ -338,7 +338,7 @@ class BaseTemplate:
     def digest(self, body: str, names: Collection[str]) -> str:
         class_name = type(self).__name__.encode('utf-8')
         sha = get_pkg_digest()
-        sha.update(body.encode('utf-8', 'ignore'))
+        sha.update(body.encode('utf-8', 'surrogatepass'))
         sha.update(class_name)
         digest = sha.hexdigest()
 
